@@ -26,6 +26,7 @@ from ._core import (
     awaitify as _awaitify,
     Sentinel,
     borrow as _borrow,
+    close_all as _close_all,
 )
 from .builtins import (
     anext,
@@ -199,9 +200,10 @@ class chain(AsyncIterator[T]):
         return self._iterator.__anext__()
 
     async def aclose(self) -> None:
-        for iterable in self._owned_iterators:
-            await iterable.aclose()
-        await self._iterator.aclose()
+        try:
+            await _close_all(self._owned_iterators)
+        finally:
+            await self._iterator.aclose()
 
 
 async def compress(
@@ -527,8 +529,7 @@ class Tee(Generic[T]):
         await self.aclose()
 
     async def aclose(self) -> None:
-        for child in self._children:
-            await child.aclose()
+        await _close_all(self._children)
 
 
 tee = Tee
@@ -597,10 +598,7 @@ async def zip_longest(
                     del value
             yield tuple(values)
     finally:
-        await fill_iter.aclose()  # type: ignore
-        for iterator in async_iters:
-            if isinstance(iterator, ACloseable):
-                await iterator.aclose()
+        await _close_all([fill_iter, *async_iters])
 
 
 async def identity(x: T) -> T:
